@@ -18,13 +18,20 @@ def time_value(ms, timeform):
     ''' The DTN time ``ms`` in the form a user of the encoding classes may give it: the integer, a datetime object
     or ISO 8601 text (DtnTimeField documents the conversion of both).  Exact: timedelta counts whole microseconds. '''
     global _EPOCH
-    if timeform in (None, 'int') or not 0 < ms <= MAX_DATETIME_MS:
+    if timeform in (None, 'int', 'reassign') or not 0 < ms <= MAX_DATETIME_MS:
         return ms
     import datetime
     if _EPOCH is None:
         _EPOCH = datetime.datetime(2000, 1, 1, tzinfo=datetime.timezone.utc)
     val = _EPOCH + datetime.timedelta(milliseconds=ms)
-    return val if timeform == 'datetime' else val.isoformat()
+    if timeform in ('datetime-zone', 'text-zone'):
+        # the same instant as the clock of another time zone shows it
+        minutes = (330, -300, 120, -720, 840)[ms % 5]
+        try:
+            val = val.astimezone(datetime.timezone(datetime.timedelta(minutes=minutes)))
+        except OverflowError:
+            pass
+    return val if timeform.startswith('datetime') else val.isoformat()
 
 
 def to_repo_primary(pri, timeform=None):
